@@ -65,8 +65,212 @@ let h_sim args = match args with
      sim_checks p prog (dec_outcome impl)]
   | _ -> bad "sim args"
 
+(* ---------- further decoders / encoders ---------- *)
+let z_of_int (n : int) : z = if n >= 0 then Z.of_nat (nat_of_int n) else Z.opp (Z.of_nat (nat_of_int (-n)))
+let int_of_z (x : z) : int = match x with Z0 -> 0 | Zpos _ -> int_of_nat (Z.to_nat x) | Zneg _ -> - (int_of_nat (Z.to_nat (Z.opp x)))
+let dec_udesc x = match x with
+  | L [n; w; caps; rl; wl; mem] ->
+    { d_name = dec_cstr n; d_width = z_of_int (dec_int w); d_caps = dec_list dec_cstr caps;
+      d_rl = dec_bool rl; d_wl = dec_bool wl; d_mem = dec_list dec_cstr mem }
+  | _ -> bad "udesc"
+let dec_desc x = match x with
+  | L [us; es] -> { d_units = dec_list dec_udesc us; d_edges = dec_list (dec_list dec_cstr) es }
+  | _ -> bad "desc"
+let enc_lk k = enc_str (match k with LkRead -> "read" | LkWrite -> "write")
+let enc_load_err e = match e with
+  | EDupUnit (o, n) -> L [A "DupElemError"; enc_cstr o; enc_cstr n]
+  | EBadWidth (u, w) -> L [A "BadWidthError"; enc_cstr u; enc_int (int_of_z w)]
+  | EBadEdge e -> L [A "BadEdgeError"; enc_list enc_cstr e]
+  | EUndefUnit n -> L [A "UndefElemError"; enc_cstr n]
+  | ECycle -> L [A "NetworkXUnfeasible"]
+  | EDeadInput ps -> L [A "DeadInputError"; enc_list enc_cstr ps]
+  | EEmptyProc -> L [A "EmptyProcError"]
+  | EPathLock (k, st, lk, cap) ->
+    L [A "PathLockError"; enc_cstr st; enc_lk lk; enc_cstr cap;
+       A (match k with PlDifferent -> "different" | PlMultiple -> "multiple" | PlNone -> "none")]
+  | EBlockedCap (cap, port) -> L [A "BlockedCapError"; enc_cstr cap; enc_cstr port]
+  | EAclAssert -> L [A "AssertionError"]
+let enc_load_res r = match r with
+  | LoadOk p -> L [A "ok"; enc_proc p]
+  | LoadErr e -> L [A "err"; enc_load_err e]
+(* the implementation's result, as sent by the harness *)
+let dec_lk x = match dec_str x with "read" -> LkRead | "write" -> LkWrite | s -> bad "lock kind %s" s
+let dec_impl_load x : (proc, load_err option) Either.t = match x with
+  | L [A "ok"; p] -> Either.Left (dec_proc p)
+  | L [A "err"; L (A cls :: f)] ->
+    Either.Right (match cls, f with
+      | "DupElemError", [o; n] -> Some (EDupUnit (dec_cstr o, dec_cstr n))
+      | "BadWidthError", [u; w] -> Some (EBadWidth (dec_cstr u, z_of_int (dec_int w)))
+      | "BadEdgeError", [e] -> Some (EBadEdge (dec_list dec_cstr e))
+      | "UndefElemError", [n] -> Some (EUndefUnit (dec_cstr n))
+      | "NetworkXUnfeasible", [] -> Some ECycle
+      | "DeadInputError", [p] -> Some (EDeadInput [dec_cstr p])
+      | "EmptyProcError", [] -> Some EEmptyProc
+      | "PathLockError", [st; lk; cap] -> Some (EPathLock (PlNone, dec_cstr st, dec_lk lk, dec_cstr cap))
+      | "BlockedCapError", [cap; port] -> Some (EBlockedCap (dec_cstr cap, dec_cstr port))
+      | "AssertionError", [] -> Some EAclAssert
+      | _ -> None)
+  | _ -> bad "impl load result: %s" (to_string x)
+
+let h_loader args = match args with
+  | d :: impl :: _ ->
+    let d = dec_desc d in
+    let checks = match dec_impl_load impl with
+      | Either.Left p ->
+        [chk "C09" (c09_checkb p); chk "C10" (c10_checkb d p); chk "C11" (c11_accept_ok d p);
+         chk "C12" (c12_order_checkb p && c12_classify_checkb p)]
+      | Either.Right (Some e) -> [chk "C11" (c11_error_ok d e)]
+      | Either.Right None -> [chk "C11" false] in
+    [L [A "model"; enc_load_res (load_proc_desc d)]; L (A "chk" :: checks)]
+  | _ -> bad "loader args"
+
+(* parts in the supplied order: (ins outs inouts ints) *)
+let h_mkproc args = match args with
+  | parts :: impl :: _ ->
+    let p = dec_proc parts in
+    let model = make_desc p.p_in p.p_out p.p_inout p.p_int in
+    let checks = match impl with
+      | L [A "ok"; ip] -> [chk "C12" (c12_parts_checkb p.p_in p.p_out p.p_inout p.p_int (dec_proc ip))]
+      | _ -> [] in
+    [L [A "model"; (match model with Some q -> L [A "ok"; enc_proc q] | None -> L [A "err"; L [A "NetworkXUnfeasible"]])];
+     L (A "chk" :: checks)]
+  | _ -> bad "mkproc args"
+
+let h_icase args = match args with
+  | a :: b :: _ ->
+    let a = dec_cstr a and b = dec_cstr b in
+    [L [A "model"; L [enc_bool (ic_eqb a b); enc_bool (ic_ltb a b);
+                      enc_bool (ic_eqb a b) (* equal keys hash equally *);
+                      enc_bool (ic_contains a b); enc_cstr (ic_str a);
+                      enc_cstr (lower a); enc_cstr (upper a)]]]
+  | _ -> bad "icase args"
+
+let h_bag args = match args with
+  | a :: b :: _ ->
+    let a = dec_record a and b = dec_record b in
+    [L [A "model"; L [enc_bool (bag_eqb a b); enc_nat (bag_len a); enc_cstr (bag_repr a)]]]
+  | _ -> bad "bag args"
+
+(* regq: requests ((ty owner)...) and operations ((can ty o) | (deq o))...; queue states front first *)
+let dec_aty x = match x with A "R" -> RD | A "W" -> WR | _ -> bad "aty"
+let enc_aty t = A (match t with RD -> "R" | WR -> "W")
+let enc_queue q = enc_list (fun g -> L [enc_aty g.g_ty; enc_list enc_int (List.sort compare (List.map int_of_nat g.g_reqs))]) q
+let h_regq args = match args with
+  | rs :: ops :: _ ->
+    let rs = dec_list (fun r -> match r with L [t; o] -> (dec_aty t, dec_nat o) | _ -> bad "req") rs in
+    let q0 = build_queue rs in
+    let q = ref q0 and a = ref (Some (a_init rs)) and dead = ref false in
+    let spec_ok = ref true in
+    let outs = List.map (fun op ->
+        if !dead then A "skipped" else
+        match op with
+        | L [A "can"; t; o] ->
+          let t = dec_aty t and o = dec_nat o in
+          (match can_access !q t o with
+           | Ok b ->
+             (match !a with Some st -> if a_empty st || a_can_access st t o <> b then spec_ok := false | None -> ());
+             enc_bool b
+           | Err _ ->
+             (match !a with Some st -> if not (a_empty st) then spec_ok := false | None -> ());
+             A "IndexError")
+        | L [A "deq"; o] ->
+          let o = dec_nat o in
+          let servable = (match can_access !q RD o, can_access !q WR o with Ok true, _ | _, Ok true -> true | _ -> false) in
+          (match dequeue !q o with
+           | Ok q' ->
+             q := q';
+             (match !a with
+              | Some st -> (match a_dequeue st o with
+                  | Some st' -> a := Some st'; if abs_queue st' <> q' then spec_ok := false
+                  | None -> if servable then spec_ok := false; a := None)
+              | None -> ());
+             A "ok"
+           | Err e -> dead := true;
+             if servable then spec_ok := false;
+             enc_pyerr (match e with UnknownUnit -> KeyError | x -> x))
+        | _ -> bad "op") (dec_list (fun x -> x) ops) in
+    [L [A "model"; L [enc_queue q0; L outs; enc_queue !q]];
+     L [A "chk"; chk "C19" (!spec_ok && abs_queue (a_init rs) = q0)]]
+  | _ -> bad "regq args"
+
+let enc_pinstr pi = L [enc_list enc_cstr pi.pi_srcs; enc_cstr pi.pi_dst; enc_cstr pi.pi_name; enc_nat pi.pi_line]
+let dec_pinstr x = match x with
+  | L [s; d; n; l] -> { pi_srcs = dec_list dec_cstr s; pi_dst = dec_cstr d; pi_name = dec_cstr n; pi_line = dec_nat l }
+  | _ -> bad "pinstr"
+let enc_prog_res r = match r with
+  | ProgOk p -> L [A "ok"; enc_list enc_pinstr p]
+  | ProgErr (NoOperands (line, ins)) -> L [A "err"; L [A "CodeError"; enc_nat line; enc_cstr ins; A "none"; enc_cstr (code_err_msg (NoOperands (line, ins)))]]
+  | ProgErr (EmptyOperand (k, line, ins)) -> L [A "err"; L [A "CodeError"; enc_nat line; enc_cstr ins; enc_nat k; enc_cstr (code_err_msg (EmptyOperand (k, line, ins)))]]
+let h_parse args = match args with
+  | lines :: _ -> [L [A "model"; enc_prog_res (read_program (dec_list dec_cstr lines))]]
+  | _ -> bad "parse args"
+
+let enc_instr i = L [enc_list enc_cstr i.i_srcs; enc_cstr i.i_dst; enc_cstr i.i_cat]
+let enc_isa_res r = match r with
+  | IsaOk m -> L [A "ok"; enc_list (fun (k, v) -> L [enc_cstr k; enc_cstr v]) m]
+  | IsaErr (IsaDup (o, n)) -> L [A "err"; L [A "DupElemError"; enc_cstr o; enc_cstr n]]
+  | IsaErr (IsaUndefCap c) -> L [A "err"; L [A "UndefElemError"; enc_cstr c]]
+let enc_comp_res r = match r with
+  | CompOk p -> L [A "ok"; enc_list enc_instr p]
+  | CompUndef (n, l) -> L [A "err"; L [A "UndefElemError"; enc_cstr n; enc_nat l]]
+(* isa: table ((instr cap)...), capabilities (...), program to compile *)
+let h_isa args = match args with
+  | spec :: caps :: prog :: _ ->
+    let spec = dec_list (fun x -> match x with L [i; c] -> (dec_cstr i, dec_cstr c) | _ -> bad "isa entry") spec in
+    let r = load_isa spec (dec_list dec_cstr caps) in
+    let comp = match r with
+      | IsaOk m -> enc_comp_res (compile_program (dec_list dec_pinstr prog) m)
+      | IsaErr _ -> A "none" in
+    [L [A "model"; L [enc_isa_res r; comp]]]
+  | _ -> bad "isa args"
+let h_abilities args = match args with
+  | p :: _ -> [L [A "model"; enc_list enc_cstr (get_abilities (dec_proc p))]]
+  | _ -> bad "abilities args"
+
+(* cli: the table text for a diagram of n instructions *)
+let h_table args = match args with
+  | d :: n :: _ ->
+    let d = dec_list dec_record d in
+    [L [A "model"; (match sim_rows d (dec_nat n) with
+        | Some rows -> L [A "ok"; enc_cstr (print_table rows)]
+        | None -> L [A "err"])]]
+  | _ -> bad "table args"
+
+(* pipeline: description, ISA table, program lines -> printed table, through every model stage *)
+let h_pipeline args = match args with
+  | d :: spec :: lines :: rest ->
+    let d = dec_desc d in
+    let spec = dec_list (fun x -> match x with L [i; c] -> (dec_cstr i, dec_cstr c) | _ -> bad "isa entry") spec in
+    let res =
+      match load_proc_desc d with
+      | LoadErr e -> L [A "err"; enc_load_err e]
+      | LoadOk p ->
+        (match load_isa spec (get_abilities p) with
+         | IsaErr _ as r -> enc_isa_res r
+         | IsaOk isa ->
+           (match read_program (dec_list dec_cstr lines) with
+            | ProgErr _ as r -> enc_prog_res r
+            | ProgOk prog ->
+              (match compile_program prog isa with
+               | CompUndef _ as r -> enc_comp_res r
+               | CompOk hw ->
+                 (match simulate_default p hw with
+                  | Done dg ->
+                    (match sim_rows dg (nat_of_int (List.length hw)) with
+                     | Some rows ->
+                       L ([A "ok"; enc_cstr (print_table rows); enc_proc p; enc_list enc_instr hw; enc_diag dg]
+                          @ (match rest with
+                             | parsed :: _ -> [enc_bool (wf_procb p); sim_checks p hw (dec_outcome parsed)]
+                             | [] -> []))
+                     | None -> L [A "err"; L [A "RowError"]])
+                  | o -> L [A "err"; enc_outcome o])))) in
+    [L [A "model"; res]]
+  | _ -> bad "pipeline args"
+
 let handlers : (Stdlib.String.t * (sx list -> sx list)) list = [
-  ("sim", h_sim);
+  ("sim", h_sim); ("loader", h_loader); ("mkproc", h_mkproc); ("icase", h_icase); ("bag", h_bag);
+  ("regq", h_regq); ("parse", h_parse); ("isa", h_isa); ("abilities", h_abilities);
+  ("table", h_table); ("pipeline", h_pipeline);
 ]
 
 let () =
